@@ -431,6 +431,23 @@ pub fn soak(args: &[String]) {
                 logs
             })
         };
+        // clone churn of the other kind (as in mrt-file-in): clones that only publish and never run
+        // process(), so their command queue fills up while they live, then they are dropped
+        let churn_np = {
+            let (g, stop) = (gate.clone(), pubs_stop.clone());
+            tokio::spawn(async move {
+                let mut logs = vec![];
+                let mut p = 1000u32;
+                while !stop.load(SeqCst) {
+                    let c = Arc::new(g.as_ref().clone());
+                    logs.push(publisher(c.clone(), p, stop.clone(), 24).await);
+                    drop(Arc::try_unwrap(c).expect("churn clone still shared"));
+                    p += 1;
+                    tokio::time::sleep(Duration::from_micros(500)).await;
+                }
+                logs
+            })
+        };
         // links
         let mut qtasks = vec![];
         let mut dtasks = vec![];
@@ -509,6 +526,10 @@ pub fn soak(args: &[String]) {
         }
         if dbg { eprintln!("publishers joined"); }
         plogs.extend(churn.await.unwrap());
+        match tokio::time::timeout(Duration::from_secs(5), churn_np).await {
+            Ok(r) => plogs.extend(r.unwrap()),
+            Err(_) => return Err("dropping a clone that never ran process() is stuck".into()),
+        }
         if dbg { eprintln!("churn joined"); }
         links_stop.store(true, SeqCst);
         let mut dres = vec![];
